@@ -1,3 +1,4 @@
+import PdshVerif.Dshbak.DirTreeLemmas
 import PdshVerif.Dshbak.Model
 import PdshVerif.Dshbak.Spec
 import PdshVerif.Dshbak.Input
@@ -24,8 +25,14 @@ for each label exactly that host's lines, in order       `lines_preserved` (all 
                                                          unterminated)
 ... to the report                                        `normal_spec`
 ... or, with -d, to one file per host                    `per_file_spec` (paths `DIR/LABEL` pairwise different, one per
-                                                         label, holding its lines), `file_names_are_labels`, `plan_d`,
-                                                         `plan_f`; option block: `plan_cases`, `plan_exclusive`
+                                                         label, holding its lines), `per_file_on_tree` /
+                                                         `per_file_tree_lossless` (ON A DIRECTORY TREE: the entry LABEL of
+                                                         DIR holds the label's lines), `file_names_are_labels`, `plan_d`,
+                                                         `plan_f`, `plan_c_d_refused`, `plan_forms_agree`; option block:
+                                                         `plan_cases`, `plan_exclusive`
+labels that are PATHS (F19-DIRLABEL, open)               `path_labels_last_writer_wins`, `dot_slash_label_shares_file`,
+                                                         `dotdot_label_leaves_dir`, `unopenable_label_aborts`,
+                                                         `unopenable_labels` (general, for every tree)
 -c: merged iff outputs identical                         `coalesce_iff`, `coalesce_spec`
 every host under exactly one header, each body once      `partition`, `coalesce_spec` (`once`, `bodyOnce`)
 a header, read as a pdsh expression, expands to exactly  `compress_expands(_repaired)`, `header_expands`,
@@ -50,14 +57,16 @@ reads input (usage, exit 0 / fatal, exit 1) or runs exactly one output function;
 label.
 Not proved here:  Perl itself and the C parser are tied to their models by the checks (C19 runs the
 real `pdsh -Q -w HEADER` on every generated header as correspondence; C01 ties hostlist.c to its
-model);  for the UNREPAIRED script the text-level statement is false (F19-EMPTYSTEM, F19-LONGRUN);  the file
-system under DIR (which file `DIR/LABEL` is when LABEL is a path: pinned on the real script, F19-DIRLABEL).
+model);  for the UNREPAIRED script the text-level statement is false (F19-EMPTYSTEM, F19-LONGRUN);  open(2) itself
+(modelled in `Dshbak/DirTree.lean`: directories + files, no symbolic links, no permissions; tied to the real script
+by checks/c19.py, which compares exit status and every file left behind for every pair of 17 labels).
 Genuine defects mirrored by the model, each with a switchable repaired variant that the check
 selects by probing the real script: D21 (`unterminated_dropped` / `repaired_keeps_last`),
 F19-EMPTYSTEM (`emptystem_witness`; excluded from `compress_expands` by `NoStemClash`, no exclusion
 left in `compress_expands_repaired`), F19-LONGRUN (`longrun_witness`, `ranges_within_limit`;
 `compress_expands` holds for every limit), F19-MANYRANGES (`manyranges_witness`,
-`ranges_per_bracket`), F19-DIRZERO (`dirzero_witness`: `-d 0` is taken for "no -d"; open).
+`ranges_per_bracket`), F19-DIRZERO (`dirzero_witness`: `-d 0` was taken for "no -d"; repaired by /repo 8474bb4 — `plan false` = `defined $opt_d`
+is what the driver runs and what `plan_d` / `plan_f` / `plan_c_d_refused` are about).
 -/
 namespace PdshVerif.Props.C19
 open PdshVerif.Dshbak
@@ -389,38 +398,58 @@ example : processLines false (readFiles ["a: x\na: y".toList, "a: z\nb: w".toLis
 /-- NOTHING IS HALF DONE BY THE OPTION BLOCK: whatever the options and whatever is found under the name given
 to `-d`, the script either stops before it reads a single line (usage / fatal: nothing is printed to stdout,
 no file is written) or runs exactly one of the three output functions — over ALL of `sortn (keys %lines)` -/
-theorem plan_cases (fixD0 : Bool) (o : Opts) (ds : DirState) :
-    plan fixD0 o ds = .usage ∨ plan fixD0 o ds = .fatal ∨ plan fixD0 o ds = .report ∨
-      plan fixD0 o ds = .coalesced ∨ ∃ b, plan fixD0 o ds = .perFile b := by
-  cases h : plan fixD0 o ds <;> simp
+theorem plan_cases (truth : Bool) (o : Opts) (ds : DirState) :
+    plan truth o ds = .usage ∨ plan truth o ds = .fatal ∨ plan truth o ds = .report ∨
+      plan truth o ds = .coalesced ∨ ∃ b, plan truth o ds = .perFile b := by
+  cases h : plan truth o ds <;> simp
 
 /-- `-c` never writes files and `-d DIR` never coalesces; `-f` alone, or `-c` with `-d`, is refused -/
-theorem plan_exclusive (fixD0 : Bool) (o : Opts) (ds : DirState) :
-    (plan fixD0 o ds = .coalesced → o.c = true ∧ dGiven fixD0 o = false ∧ o.f = false) ∧
-    (∀ b, plan fixD0 o ds = .perFile b → dGiven fixD0 o = true ∧ o.c = false ∧ (b = true → o.f = true ∧ ds = .missing) ∧
+theorem plan_exclusive (truth : Bool) (o : Opts) (ds : DirState) :
+    (plan truth o ds = .coalesced → o.c = true ∧ dGiven truth o = false ∧ o.f = false) ∧
+    (∀ b, plan truth o ds = .perFile b → dGiven truth o = true ∧ o.c = false ∧ (b = true → o.f = true ∧ ds = .missing) ∧
       (b = false → ds = .dir)) ∧
-    (plan fixD0 o ds = .report → o.c = false ∧ o.f = false ∧ dGiven fixD0 o = false) := by
+    (plan truth o ds = .report → o.c = false ∧ o.f = false ∧ dGiven truth o = false) := by
   unfold plan
-  cases o.h <;> cases o.c <;> cases o.f <;> cases dGiven fixD0 o <;> cases ds <;> simp
+  cases o.h <;> cases o.c <;> cases o.f <;> cases dGiven truth o <;> cases ds <;> simp
 
-/-- with `-d DIR` given (a name Perl takes for true) and DIR an existing directory, the per-file output runs -/
-theorem plan_d (o : Opts) (dir : Str) (hd : o.d = some dir) (ht : perlTrue dir = true) (hh : o.h = false)
-    (hc : o.c = false) (fixD0 : Bool) : plan fixD0 o .dir = .perFile false := by
-  have : dGiven fixD0 o = true := by simp [dGiven, hd, ht]
+/-- THE SCRIPT (`defined $opt_d`, /repo 8474bb4): with `-d DIR` given — WHATEVER the directory is called, `0` and
+the empty name included — and DIR an existing directory, the per-file output runs -/
+theorem plan_d (o : Opts) (dir : Str) (hd : o.d = some dir) (hh : o.h = false) (hc : o.c = false) :
+    plan false o .dir = .perFile false := by
+  have : dGiven false o = true := by simp [dGiven, hd]
   simp [plan, hh, hc, this]
 
-/-- `-f` creates a missing DIR and changes nothing when DIR exists -/
-theorem plan_f (o : Opts) (dir : Str) (hd : o.d = some dir) (ht : perlTrue dir = true) (hh : o.h = false)
-    (hc : o.c = false) (hf : o.f = true) (fixD0 : Bool) :
-    plan fixD0 o .missing = .perFile true ∧ plan fixD0 o .dir = .perFile false ∧ plan fixD0 o .notDir = .fatal := by
-  have : dGiven fixD0 o = true := by simp [dGiven, hd, ht]
+/-- `-f` creates a missing DIR and changes nothing when DIR exists (every directory name) -/
+theorem plan_f (o : Opts) (dir : Str) (hd : o.d = some dir) (hh : o.h = false) (hc : o.c = false) (hf : o.f = true) :
+    plan false o .missing = .perFile true ∧ plan false o .dir = .perFile false ∧ plan false o .notDir = .fatal := by
+  have : dGiven false o = true := by simp [dGiven, hd]
   simp [plan, hh, hc, hf, this]
 
-/-- F19-DIRZERO (witness): `dshbak -d 0` — a directory named `0` — prints the report to stdout instead of
-writing one file per host, because the script tests the truth of the NAME; with `defined $opt_d` it does not -/
+/-- `-c` together with `-d` is refused for every directory name, and `-f` is accepted with every `-d` -/
+theorem plan_c_d_refused (o : Opts) (dir : Str) (hd : o.d = some dir) (hh : o.h = false) (hc : o.c = true)
+    (ds : DirState) : plan false o ds = .fatal := by
+  have : dGiven false o = true := by simp [dGiven, hd]
+  simp [plan, hh, hc, this]
+
+/-- both forms of the script agree on every directory name Perl takes for true (all but `0` and the empty name):
+the repair changed nothing else -/
+theorem plan_forms_agree (o : Opts) (h : ∀ dir, o.d = some dir → perlTrue dir = true) (ds : DirState) :
+    plan true o ds = plan false o ds := by
+  have : dGiven true o = dGiven false o := by
+    unfold dGiven
+    cases hd : o.d with
+    | none => rfl
+    | some dir => simp [h dir hd]
+  simp [plan, this]
+
+/-- F19-DIRZERO (witness; repaired by /repo 8474bb4): BEFORE that commit `dshbak -d 0` — a directory named `0` —
+printed the report to stdout instead of writing one file per host and refused `-f -d 0`, because the script
+tested the truth of the NAME; the script as it is writes the files.  checks/c19.py runs `-d 0`, `-d ''`, `-d 00`,
+`-d 0.0` x every flag set in every run: a script that loses `defined` again is reported with `-d 0` -/
 theorem dirzero_witness :
-    plan false { d := some "0".toList } .dir = .report ∧ plan true { d := some "0".toList } .dir = .perFile false ∧
-    plan false { d := some "0".toList, f := true } .dir = .fatal := by decide
+    plan true { d := some "0".toList } .dir = .report ∧ plan false { d := some "0".toList } .dir = .perFile false ∧
+    plan true { d := some "0".toList, f := true } .dir = .fatal ∧
+    plan false { d := some "0".toList, f := true } .dir = .perFile false := by decide
 
 /-- `-d DIR`, LOSSLESS: for every input and every hash order, the paths `do_output_per_file` opens are pairwise
 different STRINGS, one per label of the input, each `DIR/LABEL`, and what is printed to it is exactly that
@@ -456,6 +485,97 @@ the real script by checks/c19.py, finding F19-DIRLABEL.) -/
 theorem file_names_are_labels :
     (["n01", "n1-ib", "0", "x.y_z-1", "..n", "...", ".hidden"].map String.toList).all fileNameOK = true ∧
     (["a/b", "./x", "../x", ".", "..", "", "x/"].map String.toList).all (fun t => !fileNameOK t) = true := by
+  decide
+
+/-! ### `-d DIR` on a directory tree (`Dshbak/DirTree.lean`): which file a label's lines end up in -/
+
+/-- ONE FILE PER HOST, ON THE TREE.  DIR resolves to a directory `d`; the labels are pairwise different plain file
+names (`fileNameOK`), none of them the name of a sub-directory of DIR.  Then every `open` succeeds (exit 0) and
+afterwards the entry LABEL of DIR holds exactly that label's lines in input order, for every label, whatever DIR
+held before and in whatever order the labels are taken -/
+theorem per_file_tree_lossless (dirs : List Node) (cwd : Node) (dir : Str) (h : dir ≠ []) (d : Node)
+    (hd : walk dirs (startOf cwd dir) (splitSlash dir) = some d) (bs : List (Str × List Str))
+    (hnd : (bs.map Prod.fst).Nodup) (hok : ∀ b ∈ bs, fileNameOK b.1 = true ∧ (d ++ [b.1]) ∉ dirs) (fs : Files) :
+    (runWrites dirs cwd (bs.map fun b => (filePath dir b.1, b.2)) fs).2 = true ∧
+    ∀ b ∈ bs, fileAt (runWrites dirs cwd (bs.map fun b => (filePath dir b.1, b.2)) fs).1 (d ++ [b.1]) = some b.2 :=
+  runWrites_plain dirs cwd dir h d hd bs hnd hok fs
+
+/-- … composed with the script's own tables: for every input and every hash order, `dshbak -d DIR` with plain
+labels leaves, in the entry LABEL of DIR, exactly `Spec.linesOf` of that label -/
+theorem per_file_on_tree (rep : Bool) (ls : List InLine) (hwf : ∀ l ∈ ls, l.WF) (ks : List Str)
+    (hks : ks.Perm (keys (table rep ls))) (dirs : List Node) (cwd : Node) (dir : Str) (h : dir ≠ []) (d : Node)
+    (hd : walk dirs (startOf cwd dir) (splitSlash dir) = some d)
+    (hok : ∀ t ∈ Spec.labels (recsOf ls), fileNameOK t = true ∧ (d ++ [t]) ∉ dirs) (fs : Files) :
+    (runWrites dirs cwd (perFileWrites dir ks (table rep ls)) fs).2 = true ∧
+    ∀ t ∈ Spec.labels (recsOf ls),
+      fileAt (runWrites dirs cwd (perFileWrites dir ks (table rep ls)) fs).1 (d ++ [t]) =
+        some (Spec.linesOf (recsOf ls) t) := by
+  have sp := normal_spec rep ls hwf ks hks
+  have hmap : perFileWrites dir ks (table rep ls) =
+      (normalBlocks ks (table rep ls)).map fun b => (filePath dir b.1, b.2) := rfl
+  have hnd : ((normalBlocks ks (table rep ls)).map Prod.fst).Nodup := sp.once
+  have hok' : ∀ b ∈ normalBlocks ks (table rep ls), fileNameOK b.1 = true ∧ (d ++ [b.1]) ∉ dirs := by
+    intro b hb
+    exact hok b.1 (sp.only b.1 (List.mem_map.mpr ⟨b, hb, rfl⟩))
+  have r := runWrites_plain dirs cwd dir h d hd _ hnd hok' fs
+  rw [hmap]
+  refine ⟨r.1, fun t ht => ?_⟩
+  obtain ⟨b, hb, hbt⟩ := List.mem_map.mp (sp.all t ht)
+  have := r.2 b hb
+  rw [hbt, sp.lines b hb, hbt] at this
+  exact this
+
+/-- F19-DIRLABEL, general form 1: THE LAST WRITER WINS.  When every `open` succeeds, a node holds afterwards the
+lines of the LAST label (in `sortn` order) whose path resolves to it: the lines of every earlier label that shares
+the node are lost, exit 0 -/
+theorem path_labels_last_writer_wins (dirs : List Node) (cwd : Node) (nd : Str → Node)
+    (pre : List (Str × List Str)) (w : Str × List Str) (post : List (Str × List Str)) (fs : Files)
+    (hopen : ∀ x ∈ pre ++ w :: post, openW dirs cwd x.1 = some (nd x.1)) (hlast : ∀ x ∈ post, nd x.1 ≠ nd w.1) :
+    (runWrites dirs cwd (pre ++ w :: post) fs).2 = true ∧
+    fileAt (runWrites dirs cwd (pre ++ w :: post) fs).1 (nd w.1) = some w.2 := by
+  unfold runWrites
+  rw [runWrites_all_open dirs cwd nd _ fs hopen]
+  exact ⟨rfl, fold_setFile_last nd pre w post fs hlast⟩
+
+/-- F19-DIRLABEL, general form 2: `./LABEL` IS `LABEL` (the two labels share one file, for every tree) -/
+theorem dot_slash_label_shares_file (dirs : List Node) (cwd : Node) (dir t : Str) (h : dir ≠ []) (d : Node)
+    (hd : walk dirs (startOf cwd dir) (splitSlash dir) = some d) :
+    openW dirs cwd (filePath dir ('.' :: '/' :: t)) = openW dirs cwd (filePath dir t) :=
+  openW_dot_slash dirs cwd dir t h d hd
+
+/-- F19-DIRLABEL, general form 3: `../LABEL` is an entry of DIR's parent — outside DIR -/
+theorem dotdot_label_leaves_dir (dirs : List Node) (cwd : Node) (dir t : Str) (h : dir ≠ []) (d : Node)
+    (hd : walk dirs (startOf cwd dir) (splitSlash dir) = some d) (ht : fileNameOK t = true)
+    (hnd : (d.dropLast ++ [t]) ∉ dirs) :
+    openW dirs cwd (filePath dir ('.' :: '.' :: '/' :: t)) = some (d.dropLast ++ [t]) :=
+  openW_dotdot dirs cwd dir t h d hd ht hnd
+
+/-- F19-DIRLABEL, general form 4: ABORTED MIDWAY.  A label `SUB/X` without a directory SUB in DIR, and the labels
+`.`, `..` and the empty one, cannot be opened; the script ends there with exit 1: the labels before it (in `sortn`
+order) have their files, the labels after it have nothing -/
+theorem unopenable_label_aborts (dirs : List Node) (cwd : Node) (nd : Str → Node) (pre : List (Str × List Str))
+    (w : Str × List Str) (post : List (Str × List Str)) (fs : Files)
+    (hpre : ∀ x ∈ pre, openW dirs cwd x.1 = some (nd x.1)) (hw : openW dirs cwd w.1 = none) :
+    runWrites dirs cwd (pre ++ w :: post) fs = (pre.foldl (fun fs x => setFile fs (nd x.1) x.2) fs, false) :=
+  runWrites_abort dirs cwd nd pre w post fs hpre hw
+
+theorem unopenable_labels (dirs : List Node) (cwd : Node) (dir : Str) (h : dir ≠ []) (d : Node)
+    (hd : walk dirs (startOf cwd dir) (splitSlash dir) = some d) :
+    openW dirs cwd (filePath dir ['.']) = none ∧ openW dirs cwd (filePath dir ['.', '.']) = none ∧
+    openW dirs cwd (filePath dir []) = none ∧
+    (∀ sub t, fileNameOK sub = true → '/' ∉ t → (d ++ [sub]) ∉ dirs →
+      openW dirs cwd (filePath dir (sub ++ '/' :: t)) = none) := by
+  obtain ⟨a, b, c⟩ := openW_not_a_file dirs cwd dir h d hd
+  exact ⟨a, b, c, fun sub t hs ht hno => openW_missing_subdir dirs cwd dir sub t h d hd hs ht hno⟩
+
+/-- the repro of F19-DIRLABEL through the model (`mkdir -p P/D; cd P; printf 'x: 1\n./x: 2\n../e: 3\n' | dshbak -d D`):
+`P/D/x` holds only `2`, `3` went to `P/e` (decided; checks/c19.py compares the real script's tree with `runWrites`
+for every pair of 17 labels) -/
+example :
+    runWrites [["P".toList], ["P".toList, "D".toList]] ["P".toList]
+      (perFileWrites "D".toList ["x".toList, "./x".toList, "../e".toList]
+        (processLines true (readLines "x: 1\n./x: 2\n../e: 3\n".toList))) [] =
+    ([(["P", "D", "x"].map String.toList, ["2".toList]), (["P", "e"].map String.toList, ["3".toList])], true) := by
   decide
 
 /-! ### defects of the unchanged script, mirrored by the model -/
